@@ -38,6 +38,22 @@ Theorem C09_bad_partial : forall w c m w', cmd w c = Done 0 m w' -> accepted w c
 Proof. exact cmd_ret0_accepted. Qed.
 Print Assumptions C09_bad_partial.
 
+(* direct form: a command the code's acceptance test rejects answers 1, submits nothing, changes nothing; three
+   spelled-out instances: speed out of range, a point id that no connected board configures, a disconnected output *)
+Theorem C09_bad : forall w c, wfb w = true -> ~ accepted w c -> cmd w c = Done 1 [] w.
+Proof. exact cmd_bad. Qed.
+Print Assumptions C09_bad.
+
+Theorem C09_bad_instances : forall w, wfb w = true ->
+  (forall t s o, (s < -126 \/ 126 < s)%Z -> cmd w (SetTrainSpeed t s o) = Done 1 [] w) /\
+  (forall p a, (forall b, In b (w_boards w) -> b_conn b = true ->
+                          (forall m, In m (b_pts b) -> ba_id m <> p) /\ (forall m, In m (b_dpts b) -> dc_id m <> p)) ->
+               cmd w (SwitchPoint p a) = Done 1 [] w) /\
+  (forall t p s o, (forall b, In b (w_boards w) -> b_id b = o -> b_conn b = false) ->
+                   cmd w (SetTrainPeripheral t p s o) = Done 1 [] w).
+Proof. exact cmd_bad_examples. Qed.
+Print Assumptions C09_bad_instances.
+
 (* ---- good commands: exactly the configured message, to the owning board's current address ---- *)
 Theorem C09_ok_board_accessory_except : forall (point : bool) w b m a, wfb w = true ->
   In b (w_boards w) -> In m (if point then b_pts b else b_sigs b) -> In a (ba_aspects m) -> b_conn b = true ->
@@ -85,6 +101,108 @@ Theorem C09_ok_track_output_all : forall w s, cs_state_ok s = true ->
 Proof. exact track_output_all_ok. Qed.
 Print Assumptions C09_ok_track_output_all.
 
+(* DCC accessory (points-dcc / signals-dcc): one MSG_CS_ACCESSORY per configured port value, in order, with the
+   configured DCC address; exactly the switched accessory's tracked state changes: aspect id, and value / coil
+   from the last port message (upd_d); everything else in the world is untouched *)
+Theorem C09_ok_dcc_accessory : forall (point : bool) w b m a, wfb w = true -> conn_addrs_distinct (w_boards w) = true ->
+  In b (w_boards w) -> In m (if point then b_dpts b else b_dsigs b) -> b_conn b = true -> In a (dc_aspects m) ->
+  cmd w (if point then SwitchPoint (dc_id m) (da_id a) else SetSignal (dc_id m) (da_id a)) =
+  Done 0 (map (fun pv => (b_addr b, MSG_CS_ACCESSORY, [dc_addrl m; dc_addrh m; dcc_port_data (dc_ext m) pv; 0])) (da_ports a))
+       (set_dacc_st point w (upd_first (fun s => ds_id s =? dc_id m)
+                                       (fun s => set_sid (da_id a) (ports_upd (dc_ext m) (da_ports a) s)) (get_dacc_st point w))).
+Proof. exact dcc_accessory_cmd_ok. Qed.
+Print Assumptions C09_ok_dcc_accessory.
+
+Theorem C09_dcc_data_byte : forall ext p v, ext <= 1 -> v <= 1 -> dcc_port_data ext (p, v) = p mod 32 + 32 * v + 128 * ext.
+Proof. exact dcc_port_data_spec. Qed.
+Print Assumptions C09_dcc_data_byte.
+
+Theorem C09_dcc_final_state : forall ext a ports pv s,
+  set_sid a (ports_upd ext (ports ++ [pv]) s) =
+  mk_dst (ds_id s) (Some a) (N.land (dcc_port_data ext pv) 31) (N.testbit (dcc_port_data ext pv) 5)
+         (negb (N.testbit (dcc_port_data ext pv) 6)) 0 0 (ds_ack s).
+Proof. exact dcc_accessory_final. Qed.
+Print Assumptions C09_dcc_final_state.
+
+(* reverser state request to the owning board *)
+Theorem C09_ok_reverser_except : forall w b m, wfb w = true -> In b (w_boards w) -> In m (b_revs b) -> b_conn b = true ->
+  (length (rv_cv m) <= 120)%nat ->
+  cmd w (RequestReverser (rv_id m) (b_id b)) =
+  Done 0 [(b_addr b, MSG_VENDOR_GET, N.of_nat (length (rv_cv m)) :: rv_cv m)]
+       (set_revs w (upd_first (fun s => rs_id s =? rv_id m) (fun s => mk_rst (rs_id s) 2) (w_revs w))).
+Proof. exact reverser_ok. Qed.
+Print Assumptions C09_ok_reverser_except.
+
+(* ---- train speed: the configured DCC address and format, the encoded speed byte, to the track output's current
+   address; the commanded train's tracked speed/direction is updated, every other train and all other state kept.
+   Excluded input class: configured addrh >= 64 (C09_speed_state_refuted). ---- *)
+Theorem C09_speed_cmd_except : forall w tr b s, wfb w = true ->
+  In tr (w_trains w) -> In b (w_boards w) -> b_conn b = true -> is_track_output b = true ->
+  tr_addrh tr < 64 -> (-126 <= s <= 126)%Z ->
+  exists ts w', find_tst w (tr_id tr) = Some ts /\
+    let fwd := if (s =? 0)%Z then ts_fwd ts else (0 <? s)%Z in
+    let enc := (if fwd then 128 else 0) + Z.abs_N s + (if (s =? 0)%Z then 0 else 1) in
+    cmd w (SetTrainSpeed (tr_id tr) s (b_id b)) =
+      Done 0 [(b_addr b, MSG_CS_DRIVE, [tr_addrl tr; tr_addrh tr; steps_fmt (tr_steps tr); 1; enc; 0; 0; 0; 0])] w' /\
+    find_tst w' (tr_id tr) = Some (mk_tst (tr_id tr) s fwd 4 (ts_pers ts)) /\
+    (forall t', t' <> tr_id tr -> find_tst w' t' = find_tst w t') /\
+    w_boards w' = w_boards w /\ w_trains w' = w_trains w /\ w_dpts w' = w_dpts w /\ w_dsigs w' = w_dsigs w /\ w_revs w' = w_revs w.
+Proof. exact speed_cmd_ok. Qed.
+Print Assumptions C09_speed_cmd_except.
+
+Theorem C09_calibrated_speed : forall w tr cal s o, wfb w = true -> In tr (w_trains w) -> tr_calib tr = Some cal -> (-9 <= s <= 9)%Z ->
+  cmd w (SetCalibratedSpeed (tr_id tr) s o) = cmd w (SetTrainSpeed (tr_id tr) (calib_value cal s) o) /\
+  (-126 <= calib_value cal s <= 126)%Z.
+Proof. exact calibrated_cmd. Qed.
+Print Assumptions C09_calibrated_speed.
+
+Theorem C09_emergency_stop_except : forall w tr b, wfb w = true ->
+  In tr (w_trains w) -> In b (w_boards w) -> b_conn b = true -> is_track_output b = true -> tr_addrh tr < 64 ->
+  exists ts w', find_tst w (tr_id tr) = Some ts /\
+    cmd w (EmergencyStop (tr_id tr) (b_id b)) =
+      Done 0 [(b_addr b, MSG_CS_DRIVE, [tr_addrl tr; tr_addrh tr; steps_fmt (tr_steps tr); 1; 129; 0; 0; 0; 0])] w' /\
+    find_tst w' (tr_id tr) = Some (mk_tst (tr_id tr) 0%Z true 4 (ts_pers ts)) /\
+    (forall t', t' <> tr_id tr -> find_tst w' t' = find_tst w t').
+Proof. exact estop_cmd_ok. Qed.
+Print Assumptions C09_emergency_stop_except.
+
+(* ---- function bits: state 0/1 on a configured function whose bit is 0..4 or 8..31: one MSG_CS_DRIVE with the
+   group's active flag, speed field 0, the group's function byte [fbyte] in its place and 0 elsewhere; bit k of
+   fbyte is on iff k is the requested bit and state = 1, or another configured function of the group sits at k and
+   its tracked value is 1 (fn_spec_bit); in the tracked state exactly the requested function changes.
+   Excluded input classes: state > 1, bits 5..7, addrh >= 64 (C09_functions_refuted, C09_speed_state_refuted). ---- *)
+Theorem C09_functions_except : forall w tr b m st, wfb w = true ->
+  In tr (w_trains w) -> In b (w_boards w) -> b_conn b = true -> is_track_output b = true -> tr_addrh tr < 64 ->
+  In m (tr_pers tr) -> st <= 1 -> tp_bit m < 5 \/ 8 <= tp_bit m ->
+  exists ts w' act lo hi idx fbyte,
+    find_tst w (tr_id tr) = Some ts /\ tp_group (tp_bit m) = (act, lo, hi, idx) /\
+    cmd w (SetTrainPeripheral (tr_id tr) (tp_id m) st (b_id b)) =
+      Done 0 [(b_addr b, MSG_CS_DRIVE,
+               [tr_addrl tr; tr_addrh tr; steps_fmt (tr_steps tr); act; 0] ++ set_nth idx fbyte [0; 0; 0; 0])] w' /\
+    (forall k, N.testbit fbyte k = fn_spec_bit tr ts m st lo hi k) /\
+    find_tst w' (tr_id tr) =
+      Some (mk_tst (tr_id tr) (ts_speed ts) (ts_fwd ts) 4
+                   (upd_first (fun q => tq_id q =? tp_id m) (fun q => mk_tpst (tq_id q) st) (ts_pers ts))) /\
+    (forall t', t' <> tr_id tr -> find_tst w' t' = find_tst w t') /\
+    w_boards w' = w_boards w /\ w_trains w' = w_trains w /\ w_dpts w' = w_dpts w /\ w_dsigs w' = w_dsigs w /\ w_revs w' = w_revs w.
+Proof. exact functions_ok. Qed.
+Print Assumptions C09_functions_except.
+
+(* ---- totality and any order: from a well-formed world no command faults (no NULL dereference / out-of-bounds in
+   the modelled code), the return code is 0 or 1, well-formedness is preserved by commands, node-new, node-lost and
+   feedback, so all theorems above apply at every step of every history ---- *)
+Theorem C09_total : forall w c, wfb w = true -> exists r m w', cmd w c = Done r m w' /\ (r = 0 \/ r = 1).
+Proof. exact cmd_total. Qed.
+Print Assumptions C09_total.
+
+Theorem C09_preserves_wf : forall w c r m w', wfb w = true -> cmd w c = Done r m w' -> wfb w' = true.
+Proof. exact cmd_preserves_wf. Qed.
+Print Assumptions C09_preserves_wf.
+
+Theorem C09_any_order : forall es w, wfb w = true -> exists os w', run w es = Some (os, w') /\ wfb w' = true.
+Proof. exact run_wf. Qed.
+Print Assumptions C09_any_order.
+
 (* ---- function bits: the recorded defects ---- *)
 Theorem C09_functions_refuted :
   (exists w', cmd wit_world (SetTrainPeripheral 7 8 2 1) = Done 0 [((0, 0, 0), MSG_CS_DRIVE, [35; 1; 3; 2; 0; 2; 0; 0; 0])] w' /\
@@ -109,10 +227,11 @@ Print Assumptions C09_reverser_refuted.
 
 Example C09_nonvacuous :
   wfb wit_world = true /\ conn_addrs_distinct (w_boards wit_world) = true /\
-  exists w1 w2,
+  exists w1 w2 w3,
     cmd wit_world (SetTrainSpeed 7 (-5) 1) = Done 0 [((0, 0, 0), MSG_CS_DRIVE, [35; 1; 3; 1; 6; 0; 0; 0; 0])] w1 /\
     cmd w1 (SetTrainSpeed 7 0 1) = Done 0 [((0, 0, 0), MSG_CS_DRIVE, [35; 1; 3; 1; 0; 0; 0; 0; 0])] w2 /\
     tracked_speed w2 7 = Some (0%Z, false) /\
-    cmd w2 (SwitchPoint 4 1) = cmd w2 (SwitchPoint 4 1) /\
+    cmd w2 (SwitchPoint 4 1) = Done 0 [((0, 0, 0), MSG_CS_ACCESSORY, [34; 17; 32; 0]); ((0, 0, 0), MSG_CS_ACCESSORY, [34; 17; 1; 0])] w3 /\
+    option_map ds_sid (find (fun s => ds_id s =? 4) (w_dpts w3)) = Some (Some 1) /\
     cmd wit_world (SwitchPoint 9999 1) = Done 1 [] wit_world.
-Proof. split; [exact (proj1 wit_world_wf)|]. split; [exact (proj2 wit_world_wf)|]. eexists; eexists. vm_compute. repeat split; reflexivity. Qed.
+Proof. split; [exact (proj1 wit_world_wf)|]. split; [exact (proj2 wit_world_wf)|]. eexists; eexists; eexists. vm_compute. repeat split; reflexivity. Qed.
